@@ -107,7 +107,7 @@ def jobs(tier, seed, excluded=()):
     out = []
     if tier == "quick":
         dom = Dom(int_max=120, str_mode="cand", str_cands=["", "fast", 'q"t', "b\\s", "#c", " sp "], int_cands=["-3", "007", "abc"], hex_cands=["0x1f", "0X1F", "1f", "zz", "0xfffff"], float_cands=["5", "1e3", "-0.5", ".5", "nan", "9.6"])
-        trees = ["T01", "T03", "T05", "T05s", "T07", "T04"]
+        trees = ["T01", "T03", "T05", "T05s", "T07", "T04", "T10"]
         budget, nparts, tmo = 120, 2, 90
         strlen = 2
     else:
